@@ -138,7 +138,7 @@ class Workspace:
         return {"m": m, "rc": rc, "out": out, "secs": round(time.time() - t, 2), "timed_out": to, "dump": dumps,
                 "panicked": "panicked" in out, "n_errors": len(re.findall(r"ERROR", out))}
 
-    def pavexc_all(self, names, jobs=12, **kw):
+    def pavexc_all(self, names, jobs=12, must_accept=(), **kw):
         # the first run fills the doc cache for everybody else
         res = {}
         if not names:
@@ -147,6 +147,21 @@ class Workspace:
         with concurrent.futures.ThreadPoolExecutor(max_workers=jobs) as ex:
             for r in ex.map(lambda n: self.pavexc(n, **kw), names[1:]):
                 res[r["m"]] = r
+        # The parallel runs share one cargo workspace: while one pavexc rewrites the manifest of its SDK crate or
+        # re-documents the `app` crate, another one may run `cargo metadata` / read that JSON and fail for reasons that
+        # have nothing to do with its blueprint (seen as "Failed to invoke `cargo metadata`" and as panics about
+        # annotations that are missing from the docs). Nobody runs pavexc like that: every run that crashed, timed out,
+        # failed in cargo, or rejected a program that must be accepted is repeated ALONE, and the repetition counts.
+        # What the first attempt said is kept (`first_attempt`) and reported by the stage.
+        def suspicious(r):
+            return (r["panicked"] or r["timed_out"] or r["rc"] not in (0, 1) or "Failed to invoke `cargo" in r["out"]
+                    or "cargo rustdoc" in r["out"] or (r["rc"] != 0 and r["m"] in must_accept) or (r["rc"] != 0 and r["n_errors"] == 0))
+        for n in names:
+            r = res[n]
+            if suspicious(r):
+                r2 = self.pavexc(n, **kw)
+                r2["first_attempt"] = {"rc": r["rc"], "panicked": r["panicked"], "timed_out": r["timed_out"], "out_tail": r["out"][-1500:]}
+                res[n] = r2
         return res
 
     def sdk_files(self, m):
